@@ -84,7 +84,7 @@ def fmt_queries(tier):
                                     kf({'NDIG': n, 'MODE': mode, 'FIXED': fixed, 'CHAR': ch}, ex), bounds=b, cflags=PRIV, kf_excl=ex, timeout=600, mem_gb=8))
     # long zero padding (Fixed format, precision >= 20: insertZerosLarge writes the 20-unit zero block more than once): precision pinned
     # per query (a constant, so the padding lengths fold), run of 1-2 digits, integer-valued V / one fraction digit / V < 1
-    for prec in ((19, 20, 21, 22, 40, 41) if tier == 'quick' else tuple(range(17, 46))):
+    for prec in ((20, 21, 22) if tier == 'quick' else tuple(range(17, 46))):
         for mode, n in ((0, 1), (0, 2), (1, 2), (2, 1)):
             m = n + prec + 8
             b = {'draw': n + 1, 'fill': 73, 'ref_round|ref_text': m, 'h_fixed': prec + 4, 'formatStringNumberFixed|roundStringNumber': m, 'Write': 22, 'Reverse': m,
